@@ -186,6 +186,8 @@ def deep_snapshot(obj, memo=None, depth=0):
     if depth > 30:
         return ('deep', oid)
     tn = type(obj).__name__
+    if (type(obj).__module__ or '').startswith('mc.') and tn not in ('Obj', 'RoObj', 'BadObj'):
+        return ('harness-object', tn, oid)    # instrumentation of the checks themselves (counters, logs) is not part of the spec
     if isinstance(obj, dict):
         return ('dict', tn, oid, tuple((deep_snapshot(k, memo, depth + 1), deep_snapshot(v, memo, depth + 1)) for k, v in obj.items()))
     if isinstance(obj, (list, tuple)):
